@@ -147,7 +147,8 @@ class Exec:
             if sch and not isinstance(sch[0], list):
                 sch = [sch]  # replay files written before schedules were kept per phase
             rec = sch[pi] if pi < len(sch) else []
-        self.chooser = Chooser(self.rng_sched, rec, stay=self.plan["knobs"].get("stay", 0.5))
+        k = self.plan["knobs"]
+        self.chooser = Chooser(self.rng_sched, rec, stay=k.get("stay", 0.5), pct_depth=k.get("pct_depth", 0))
 
     def world(self):
         plan = self.plan
